@@ -151,3 +151,61 @@ def urlDecode : List UInt8 → List UInt8
   | [] => []
 
 end AslModel.Codec
+
+/-! ## `Url::params` / `Url::parseQuery` (src/Http.cpp) over `Dic<>` = `Map<String,String>` kept sorted by key -/
+namespace AslModel.Query
+open AslModel.Codec
+
+/-- `String::operator<` (`strcmp(a, b) < 0` on unsigned bytes) -/
+def bytesLt : List UInt8 → List UInt8 → Bool
+  | [], [] => false
+  | [], _ :: _ => true
+  | _ :: _, [] => false
+  | a :: as, b :: bs => if a < b then true else if b < a then false else bytesLt as bs
+
+abbrev Dict := List (List UInt8 × List UInt8)
+
+/-- `dic[k] = v` on a `Map`: the array stays sorted by key; an existing key keeps its slot -/
+def dicSet : Dict → List UInt8 → List UInt8 → Dict
+  | [], k, v => [(k, v)]
+  | (k', v') :: r, k, v =>
+    if bytesLt k k' then (k, v) :: (k', v') :: r
+    else if bytesLt k' k then (k', v') :: dicSet r k v
+    else (k', v) :: r
+
+def ofPairs (l : Dict) : Dict := l.foldl (fun acc kv => dicSet acc kv.1 kv.2) []
+
+/-- `Dic<>::join(s1, s2)` with one-byte separators -/
+def join (s1 s2 : UInt8) (d : Dict) : List UInt8 :=
+  List.intercalate [s1] (d.map fun kv => kv.1 ++ [s2] ++ kv.2)
+
+/-- `Url::params`: `d[encode(k)] = encode(v)` for every entry in key order, then `join('&', '=')` -/
+def params (q : Dict) : List UInt8 :=
+  join 38 61 (ofPairs (q.map fun kv => (urlEncode kv.1 true, urlEncode kv.2 true)))
+
+/-- `String::split(sep)` for a one-byte separator: always at least one (possibly empty) piece -/
+def splitByte (sep : UInt8) : List UInt8 → List (List UInt8)
+  | [] => [[]]
+  | c :: r =>
+    if c = sep then [] :: splitByte sep r
+    else match splitByte sep r with
+      | h :: t => (c :: h) :: t
+      | [] => [[c]]
+
+def indexOfByte (c : UInt8) : List UInt8 → Option Nat
+  | [] => none
+  | x :: r => if x = c then some 0 else (indexOfByte c r).map (· + 1)
+
+/-- `String::split(sep1, sep2)`: pieces without `sep2`, or with it at position 0, are dropped -/
+def splitDic (sep1 sep2 : UInt8) (s : List UInt8) : Dict :=
+  (splitByte sep1 s).foldl (fun acc p =>
+    match indexOfByte sep2 p with
+    | some j => if j > 0 then dicSet acc (p.take j) (p.drop (j + 1)) else acc
+    | none => acc) []
+
+/-- `Url::parseQuery` -/
+def parseQuery (s : List UInt8) : Dict :=
+  let q := splitDic 38 61 (s.map fun c => if c = 43 then 32 else c)
+  ofPairs (q.map fun kv => (urlDecode kv.1, urlDecode kv.2))
+
+end AslModel.Query
